@@ -55,6 +55,22 @@ class C16:
                 optics['illum_wavelen'] = keyed(0.4, 0.7)
             if rng.random() < 0.5:
                 optics['noise_sd'] = keyed(0.01, 0.3)
+            if rng.random() < 0.3:
+                # array-valued metadata: one unit polarization vector per
+                # channel, in either order of the two dimensions
+                vecs = []
+                for _ in channels:
+                    a_ = rfloat(rng, 0, 6.28, 4)
+                    vecs.append([round(math.cos(a_), 12),
+                                 round(math.sin(a_), 12), 0.0])
+                vals_ = np.array(vecs)
+                dims_ = ['illumination', 'vector']
+                if rng.random() < 0.5:
+                    vals_, dims_ = vals_.T, ['vector', 'illumination']
+                optics['illum_polarization'] = {'xda': {
+                    'values': vals_.tolist(), 'dims': dims_,
+                    'coords': {'illumination': channels,
+                               'vector': ['x', 'y', 'z']}}}
         dtype = rng.choice(['float64', 'float64', 'float32', 'uint8',
                             'int32', 'uint16'])
         return {'shape': shape, 'spacing': spacing,
